@@ -8,7 +8,7 @@ TABLES = ["Enzymes"]
 LAKE_TARGETS = ["Moclo.Props.C12", "Moclo.Tables.Enzymes"]
 THEOREMS = ["Moclo.C12." + t for t in ["generic_structures_self_rc", "live_structures_self_rc", "fits_rc", "fits_rc_on_circle", "generic_occurs_iff", "mirrored_group_text", "mirrored_marks", "screen_rc", "live_sites_nonpalindromic", "report_rc", "valid_rc", "graph_rc", "ent_of_report", "assemble_rc", "unique_fit_checkable"]]
 # reductions under which a failing case stays a case of this property (see shrink.py)
-SHRINK = {"strings": True}
+SHRINK = {"strings": True, "freeze_if": ["real"]}
 RULE = ("well-formed generic modules/vectors over every enzyme geometry (exactly the two sites) at a random rotation: "
         "valid iff the reverse complement (computed by the implementation) is, overhangs exchanged and "
         "reverse-complemented, body reverse-complemented; assemblies of the reverse complements compared (up to "
@@ -21,11 +21,17 @@ def check_typing(ctx, case):
     cls = asm.cls_by_name(case["cls"])
     wd = case["word"]
     a = T.evaluate(cls, wd)
-    rec = impl.CircularRecord(impl.Seq(wd), id="x")
-    rw = str(rec.reverse_complement().seq)
-    b = T.evaluate(cls, rw)
+    rw = gen.rc(wd)               # the other strand, spelt by the harness (C14 is about reverse_complement itself)
+    # a signature-typed part reads the other strand with the mirrored signature
+    b = T.evaluate(asm.cls_by_name(case["cls_rc"]) if case.get("cls_rc") else cls, rw)
     site = cls.cutter.site
-    two_sites = gen.circ_count(wd.upper(), site) == 1 and gen.circ_count(wd.upper(), gen.rc(site)) == 1
+    if case.get("real"):
+        two_sites = True          # built with exactly two sites of the (possibly degenerate-site) cutter
+        if a[0] != "valid":
+            ctx.fail("{} rejects a plasmid that is, by the geometry of {}, a part with its own signature: {!r} ({})".format(
+                cls.__name__, cls.cutter, wd, a[0]), case)
+    else:
+        two_sites = gen.circ_count(wd.upper(), site) == 1 and gen.circ_count(wd.upper(), gen.rc(site)) == 1
     if not two_sites:
         # outside the property's hypothesis (a mutation created or destroyed a site: with several fits the
         # leftmost one on each strand need not be mirror images); correspondence only
@@ -37,7 +43,9 @@ def check_typing(ctx, case):
         if b[1].upper() != gen.rc(a[2]).upper() or b[2].upper() != gen.rc(a[1]).upper():
             ctx.fail("{}: overhangs {}/{} become {}/{} on the reverse complement".format(
                 cls.__name__, a[1], a[2], b[1], b[2]), case)
-        if case["cls"].startswith("generic:M"):
+        if case.get("real"):
+            pass
+        elif case["cls"].startswith("generic:M"):
             # target = up + body ; on the other strand  up' + rc(body)
             if b[3][k:].upper() != gen.rc(a[3][k:]).upper():
                 ctx.fail("{}: target body is not reverse-complemented".format(cls.__name__), case)
@@ -46,6 +54,9 @@ def check_typing(ctx, case):
                 ctx.fail("{}: vector backbone is not reverse-complemented".format(cls.__name__), case)
     ctx.note("verdict:" + a[0])
     ctx.case(case, nontrivial=a[0] == "valid", key=[case["cls"], wd])
+    if case.get("real"):
+        ctx.note("part-over-" + ("degenerate-site" if set(site) - set("ACGT") else "plain-site") + "-cutter")
+        return          # sites with ambiguity codes and 3' geometries: oracle only here (the model covers them in C04/C05)
     ctx.op(("EVAL", cls, rw, []), case)
     ctx.op(("RC", wd, []), case)
     # the hypotheses of `report_rc`, measured: exactly one fit on each strand
@@ -92,6 +103,28 @@ def run(ctx):
         if rng.random() < 0.15:
             wd = T.mutate(rng, wd)
         ctx.guard(check_typing, {"cls": "generic:{}:{}".format(kind, enz), "word": gen.rot(wd, rng.randrange(len(wd)))})
+    # signature-typed parts over every kind of cutter a kit may declare — sites with ambiguity codes, overhangs on
+    # either side — on plasmids built from the enzyme's geometry alone: accepted, and on the other strand accepted
+    # with the overhangs exchanged and reverse-complemented (the part of the other strand has the mirrored signature)
+    import boot
+    pool = boot.degenerate_site_enzymes() + boot.three_prime_enzymes() + boot.supported_enzymes()
+    pool = [e for e in pool if (e.is_5overhang() or (e.fst3 is not None and e.fst3 >= 0))]
+    for _ in range(ctx.budget(80, 2500)):
+        enz = rng.choice(pool[:len(boot.degenerate_site_enzymes())]) if rng.random() < 0.6 else rng.choice(pool)
+        if not (enz.is_5overhang() or (enz.fst3 is not None and enz.fst3 >= 0)):
+            continue
+        k = abs(enz.ovhg)
+        kind = rng.choice("MV")
+        up, down = gen.rnd(rng, k), gen.rnd(rng, k)
+        if up == down or gen.rc(up) == down:
+            continue
+        wd = gen.real_part_word(rng, enz, kind, up, down)
+        if wd is None:
+            continue
+        sig = rng.choice([(up, down), ("N" * k, "N" * k), (up, "N" * k)])
+        ctx.guard(check_typing, {"cls": "part:{}:{}:{}:{}".format(kind, enz, sig[0], sig[1]), "real": True,
+                                 "cls_rc": "part:{}:{}:{}:{}".format(kind, enz, gen.rc(sig[1]), gen.rc(sig[0])),
+                                 "word": gen.rot(wd, rng.randrange(len(wd)))})
     for enz in asm.pick_enzymes(rng, ctx.budget(250, 10000)):
         g = asm.gen_wellformed(rng, enz, rng.randint(1, 4))
         if g is None:
